@@ -459,6 +459,10 @@ simcam_start(struct Camera* camera)
     self->streamer.is_running = 1;
     self->im.last_emitted_frame_id = -1;
     self->im.frame_id = -1;
+    // A previous run may have left these set (stop fires the trigger to
+    // release its streamer): a new run starts untriggered.
+    self->software_trigger.triggered = 0;
+    self->im.frame_wanted = 0;
     TRACE("SIMULATED CAMERA: thread launch");
     CHECK(thread_create(&self->streamer.thread,
                         (void (*)(void*))simulated_camera_streamer_thread,
@@ -529,7 +533,11 @@ simcam_get_frame(struct Camera* camera,
     info_out->shape = self->im.shape;
     info_out->hardware_frame_id = self->im.frame_id;
     info_out->hardware_timestamp = self->hardware_timestamp;
+    ECHO(lock_release(&self->im.lock));
+    return Device_Ok;
 Shutdown:
+    // Released by stop: no frame was copied and `info_out` was not filled in.
+    *nbytes = 0;
     ECHO(lock_release(&self->im.lock)); // only acquired in non-error path
     return Device_Ok;
 Error:
